@@ -26,6 +26,9 @@ QD1 ==   {Ch(<<L(t, kh[1], kh[2], cb[1])>>, cb[2]) : t \in 1..9, kh \in QKH, cb 
     \cup {Ch(<<L(t, 2, 5, 4)>>, 1) : t \in 1..9}                       \* as_penalty
 QD2 ==   {Ch(<<L(t, 1, 2, 1), L(Shift(t, s), 2, 5, 2)>>, 2) : t \in 1..9, s \in {1, 4}}
     \cup {Ch(<<L(LGE, 1, 2, 1), L(LGI, 2, 5, 2)>>, 2)}
+    \* every type next to a history-holding (Lagrange) type, in both nesting orders: clear/iter/store must reach it
+    \cup {Ch(<<L(t, 2, 2, 2), L(g, 1, 5, 1)>>, 1) : t \in 1..9, g \in {LGE, LGI}}
+    \cup {Ch(<<L(g, 1, 5, 1), L(t, 2, 2, 2)>>, 1) : t \in 1..9, g \in {LGE, LGI}}
 QD3 ==   {Ch(<<L(QE, 1, 2, 1), L(LGI, 2, 5, 2), L(LI, 100, 1, 3)>>, 2),
           Ch(<<L(LGE, 2, 5, 3), L(BI, 1, 2, 2), L(UE, 100, 1, 1)>>, 3),
           Ch(<<L(UI, 100, 1, 2), L(QI, 2, 5, 3), L(LE, 1, 2, 1)>>, 1)}
